@@ -1168,6 +1168,9 @@ impl Optimizer {
         // right_keys are the indices that were excluded from the Join output
         let mut sorted_keys = right_keys.to_vec();
         sorted_keys.sort_unstable();
+        // a right column can be the key of several left columns (e.g. after join
+        // planning of `e1(X, X), e0(X, Y)`); it is excluded from the join output once
+        sorted_keys.dedup();
 
         projection
             .iter()
